@@ -166,7 +166,7 @@ fn spell_bytes(rng: &mut Rng, b: &[u8], style: Style) -> String {
         }
         body.push_str(rng.pick(&options[..]).as_str());
     }
-    format!("b{d}{body}{d}", d = style.delim())
+    format!("{b}{d}{body}{d}", b = if rng.chance(1, 3) { "B" } else { "b" }, d = style.delim())
 }
 
 pub fn generate(tier: Tier, rng: &mut Rng) -> Vec<Case> {
@@ -263,7 +263,7 @@ pub fn generate(tier: Tier, rng: &mut Rng) -> Vec<Case> {
         if raw_ok {
             let r = if rng.chance(1, 2) { "r" } else { "R" };
             push(&mut out, &spec, format!("{r}{d}{s}{d}", d = style.delim()), Some(want_str(&s)), vec![tag, "raw"]);
-            push(&mut out, &spec, format!("b{r}{d}{s}{d}", d = style.delim()), Some(want_bytes(s.as_bytes())), vec![tag, "raw", "bytes"]);
+            push(&mut out, &spec, format!("{b}{r}{d}{s}{d}", b = if rng.chance(1, 3) { "B" } else { "b" }, d = style.delim()), Some(want_bytes(s.as_bytes())), vec![tag, "raw", "bytes"]);
         }
         let b: Vec<u8> = (0..rng.below(9)).map(|_| if rng.chance(1, 2) { rng.below(256) as u8 } else { *rng.pick(&[b'a', b'\'', b'"', b'\\', b'\n', 0, 0x7f, 0x80, 0xff]) }).collect();
         push(&mut out, &spec, spell_bytes(rng, &b, style), Some(want_bytes(&b)), vec!["random", "bytes"]);
@@ -301,6 +301,20 @@ pub fn generate(tier: Tier, rng: &mut Rng) -> Vec<Case> {
             for prefix in ["r", "R"] {
                 push(&mut out, &spec, format!("{prefix}{d}{body}{d}"), Some(want_str(&body)), vec!["raw-triple-trailing-backslash", "raw"]);
                 push(&mut out, &spec, format!("b{prefix}{d}{body}{d}").replace("bR", "bR").replace("br", "br"), Some(want_bytes(body.as_bytes())), vec!["raw-triple-trailing-backslash", "raw", "bytes"]);
+            }
+        }
+    }
+    // every prefix in every letter case on every quote style, empty and non-empty bodies
+    for d in ["'", "\"", "'''", "\"\"\""] {
+        for body in ["", "ab", "a\\x41"] {
+            let cooked = body.replace("\\x41", "A");
+            for (prefix, raw, bytes) in [("", false, false), ("r", true, false), ("R", true, false), ("b", false, true), ("B", false, true), ("br", true, true), ("bR", true, true), ("Br", true, true), ("BR", true, true)] {
+                let val = if raw { body.to_string() } else { cooked.clone() };
+                let want = if bytes { want_bytes(val.as_bytes()) } else { want_str(&val) };
+                push(&mut out, &spec, format!("{prefix}{d}{body}{d}"), Some(want), vec!["prefix-case"]);
+            }
+            for bad in ["rb", "Rb", "rB", "RB", "bb", "rr", "u", "f"] {
+                push(&mut out, &spec, format!("{bad}{d}{body}{d}"), Some(REJECT.to_string()), vec!["prefix-case", "malformed"]);
             }
         }
     }
